@@ -629,6 +629,9 @@ def fam_cluster(tier, base):
     lines = verif.read_lines(trace)
     cnt = lambda s: sum(1 for ln in lines if s in ln)
     runs, faults, crashes = cnt('"ev":"Run"'), cnt('"class":"injected"'), cnt('"ev":"Crash"')
+    envfail = cnt('"class":"envfail"')
+    if envfail > max(3, runs // 50):
+        raise Broken("the embedded etcd failed %d times in %d runs (overloaded machine?): too many runs could not be judged" % (envfail, runs))
     return dict(trace=trace, viols=viols, states=r.distinct + rc.distinct, transitions=r.generated + rc.generated,
                 configs=[cfg, "MC_ClusterCreate_fixed.cfg", "MC_ClusterCreate_asfound.cfg", "Trace_Cluster.cfg"], window=80,
                 traces={"*": runs, "C14": crashes}, samples={"*": [json.loads(x) for x in lines[:2]]},
